@@ -106,8 +106,37 @@ Definition audio_header (first : bool) (seq ts ssrc : N) : res bytes :=
   then Ok ([128; if first then 224 else 96] ++ be16 seq ++ be32 ts ++ be32 ssrc)
   else Raise StructError.
 
+(* ------------------------------------------------------------------ StreamProtocol.send_audio_packet *)
+(* Result: (datagram handed to transport.sendto, packet RETURNED to StreamClient - which is what
+   StreamClient stores in the backlog).  [n] = number of audio packets this protocol object has
+   sent before (= the out-counter of its audio cipher).
+
+   The AEAD (ChaCha20-Poly1305, 8 byte counter nonce) is not modelled: [sym_enc] is an injective
+   symbolic stand-in for encrypt(nonce = counter n, aad, plaintext); the harness checks against
+   the real cipher that the bytes on the wire are that encryption. *)
+Inductive protocol := V1 | V2plain | V2cipher.
+
+Definition sym_enc (n : nat) (aad pt : bytes) : bytes := N.of_nat n :: aad ++ pt.
+
+(* nonce[-8:] of _PACK_NONCE_WITH_4_BYTE_PAD(counter): the counter as 8 little-endian bytes *)
+Fixpoint le_bytes (k : nat) (n : N) : bytes :=
+  match k with O => [] | S k' => n mod 256 :: le_bytes k' (n / 256) end.
+Definition nonce8 (n : nat) : bytes := le_bytes 8 (N.of_nat n).
+
+Definition send_audio_packet (p : protocol) (n : nat) (header audio : bytes) : bytes * bytes :=
+  match p with
+  | V1 =>                                   (* airplayv1.py: packet = rtp_header + audio *)
+      let packet := header ++ audio in (packet, packet)
+  | V2plain =>                              (* airplayv2.py without cipher: nonce = b"" *)
+      let packet := header ++ audio ++ [] in (packet, packet)
+  | V2cipher =>                             (* airplayv2.py: aad = rtp_header[4:12]; audio = encrypt(audio, aad) *)
+      let audio' := sym_enc n (firstn 8 (skipn 4 header)) audio in
+      let packet := header ++ audio' ++ nonce8 n in (packet, packet)
+  end.
+
 (* ------------------------------------------------------------------ stream state *)
 Record cfg := {
+  c_send : nat -> bytes -> bytes -> bytes * bytes;   (* the protocol object's send_audio_packet *)
   c_fs : nat;          (* context.frame_size = channels * bytes_per_channel *)
   c_latency : N;       (* context.latency *)
   c_start : N;         (* context.start_ts *)
@@ -170,10 +199,10 @@ Definition emit (c : cfg) (first : bool) (s2 : st) (frames : bytes) : st * res N
   | Ok header =>
       if is_closing c s2 then (s2, Ok 0)
       else
-        (* AirPlayV1.send_audio_packet: packet = header + audio; transport.sendto(packet);
-           return context.rtpseq, packet *)
-        let packet := header ++ frames in
-        let out' := s_out s2 ++ [packet] in
+        (* rtpseq, packet = await self._protocol.send_audio_packet(transport, header, audio):
+           [wire] went to transport.sendto, [packet] is what came back *)
+        let '(wire, packet) := c_send c (length (s_out s2)) header frames in
+        let out' := s_out s2 ++ [wire] in
         match fifo_set (c_lim c) (s_backlog s2) (s_seq s2) packet with      (* backlog[rtpseq] = packet *)
         | Raise e =>
             ({| s_seq := s_seq s2; s_head := s_head s2; s_pad := s_pad s2; s_src := s_src s2;
@@ -326,13 +355,19 @@ Definition n2n := N.to_nat.
 (* The datagrams observed on the audio transport, canonicalised by the harness: the 12 header
    bytes verbatim and the payload as swap16(next [o_len] bytes of the source) ++ [o_pad] zero
    bytes (checked byte for byte in Python). *)
-Record odgram := { o_hdr : bytes; o_len : N; o_pad : N }.
+Record odgram := { o_hdr : bytes; o_len : N; o_pad : N;
+                   o_enc : option (N * bytes);   (* the audio cipher was called: (counter, aad) it was given *)
+                   o_tail : bytes }.             (* bytes on the wire after the (encrypted) audio *)
 
 Fixpoint rebuild (rest : bytes) (os : list odgram) : list bytes :=
   match os with
   | [] => []
   | o :: t =>
-      (o_hdr o ++ swap16 (firstn (n2n (o_len o)) rest) ++ zeros (n2n (o_pad o)))
+      let audio := swap16 (firstn (n2n (o_len o)) rest) ++ zeros (n2n (o_pad o)) in
+      (o_hdr o ++ match o_enc o with
+                  | Some (ctr, aad) => sym_enc (n2n ctr) aad audio
+                  | None => audio
+                  end ++ o_tail o)
       :: rebuild (skipn (n2n (o_len o)) rest) t
   end.
 
@@ -360,7 +395,7 @@ Definition check_req (lim : nat) (out : list bytes) (q : oreq) : bool :=
   end.
 
 Record ocase := {
-  k_fs : N; k_latency : N; k_start : N; k_ssrc : N; k_lim : N; k_close : option N;
+  k_proto : protocol; k_fs : N; k_latency : N; k_start : N; k_ssrc : N; k_lim : N; k_close : option N;
   k_seq0 : N;
   k_srclen : N; k_pa : N; k_pb : N;         (* source = pattern pa pb srclen *)
   k_sched : list lap;
@@ -374,7 +409,7 @@ Record ocase := {
 }.
 
 Definition check_case (k : ocase) : bool :=
-  let c := {| c_fs := n2n (k_fs k); c_latency := k_latency k; c_start := k_start k; c_ssrc := k_ssrc k;
+  let c := {| c_send := send_audio_packet (k_proto k); c_fs := n2n (k_fs k); c_latency := k_latency k; c_start := k_start k; c_ssrc := k_ssrc k;
               c_lim := n2n (k_lim k);
               c_close := match k_close k with Some n => Some (n2n n) | None => None end |} in
   let src := pattern (k_pa k) (k_pb k) (n2n (k_srclen k)) in
